@@ -21,6 +21,8 @@ type GenOpts struct {
 	NoPartialDescriptors bool
 	// NoSizeClasses switches off the occasional large message (17/33/70 trips, updates, selectors or alerts).
 	NoSizeClasses bool
+	// lower bounds (0 by default)
+	MinTrips, MinVehicles, MinAlerts, MinSTU, MinSelectors int
 }
 
 func DefaultGenOpts(zone string) GenOpts {
@@ -139,8 +141,8 @@ func GenVehDesc(t *rapid.T, idx int) VehDesc {
 	switch rapid.IntRange(0, 5).Draw(t, "vehMode") {
 	case 0, 1, 2:
 		d.ID = &u
-		d.Label = opt(t, "label", rapid.SampledFrom([]string{"", "Car 1", "x"}))
-		d.Plate = opt(t, "plate", rapid.SampledFrom([]string{"", "ABC-123"}))
+		d.Label = opt(t, "label", rapid.SampledFrom([]string{"", "Car 1", "x", u, u + " "}))
+		d.Plate = opt(t, "plate", rapid.SampledFrom([]string{"", "ABC-123", u}))
 	case 3:
 		d.Label = &u
 	case 4:
@@ -245,7 +247,7 @@ func GenAlert(t *rapid.T, pool []TripDesc, o GenOpts) *Alert {
 	for i := 0; i < np; i++ {
 		a.Periods = append(a.Periods, Period{Start: opt(t, "pStart", gUTime64), End: opt(t, "pEnd", gUTime64)})
 	}
-	ns := rapid.IntRange(0, o.MaxSelectors).Draw(t, "nSelectors")
+	ns := rapid.IntRange(o.MinSelectors, o.MaxSelectors).Draw(t, "nSelectors")
 	for i := 0; i < ns; i++ {
 		a.Informed = append(a.Informed, GenSelector(t, pool, o.Zone, o.NoPartialDescriptors))
 	}
@@ -321,8 +323,8 @@ func GenMsg(t *rapid.T, o GenOpts) (*Msg, MsgInfo) {
 		}
 		info.SizeClass = n
 	}
-	nT := rapid.IntRange(0, o.MaxTrips).Draw(t, "nTrips")
-	nV := rapid.IntRange(0, o.MaxVehicles).Draw(t, "nVehicles")
+	nT := rapid.IntRange(o.MinTrips, o.MaxTrips).Draw(t, "nTrips")
+	nV := rapid.IntRange(o.MinVehicles, o.MaxVehicles).Draw(t, "nVehicles")
 	nI := rapid.IntRange(0, o.MaxIdless).Draw(t, "nIdless")
 	trips := make([]TripDesc, nT)
 	for i := range trips {
@@ -331,7 +333,27 @@ func GenMsg(t *rapid.T, o GenOpts) (*Msg, MsgInfo) {
 			// distinct descriptors may share the trip_id string (and the start date) and differ elsewhere:
 			// e.g. the runs of a frequency-based trip. They are still different trips.
 			prev := trips[rapid.IntRange(0, i-1).Draw(t, "shareWith")]
-			if prev.TripID != nil {
+			if prev.TripID != nil && rapid.IntRange(0, 3).Draw(t, "zeroTwin") == 0 {
+				// a twin that differs from an earlier trip ONLY in that a field is absent on one side and has its zero value on
+				// the other: no start time vs "00:00:00", no start date vs 19700101, no direction vs 0 - different identifiers
+				tw := prev
+				tw.TripID, tw.RouteID, tw.Direction, tw.StartTime, tw.StartDate, tw.SchedRel = cp(prev.TripID), cp(prev.RouteID), cp(prev.Direction), cp(prev.StartTime), cp(prev.StartDate), cp(prev.SchedRel)
+				switch rapid.IntRange(0, 1).Draw(t, "zeroTwinField") {
+				case 0:
+					if prev.StartTime == nil {
+						tw.StartTime = P("00:00:00")
+					} else {
+						tw.StartTime = nil
+					}
+				default:
+					if prev.StartDate == nil {
+						tw.StartDate = P("19700101")
+					} else {
+						tw.StartDate = nil
+					}
+				}
+				trips[i] = tw
+			} else if prev.TripID != nil {
 				trips[i].TripID = cp(prev.TripID)
 				if rapid.Bool().Draw(t, "shareStartDate") {
 					trips[i].StartDate = cp(prev.StartDate)
@@ -431,7 +453,7 @@ func GenMsg(t *rapid.T, o GenOpts) (*Msg, MsgInfo) {
 			v := vehs[vehOfTrip[ti]]
 			tu.Vehicle = &v
 		}
-		n := rapid.IntRange(0, o.MaxSTU).Draw(t, "nSTU")
+		n := rapid.IntRange(o.MinSTU, o.MaxSTU).Draw(t, "nSTU")
 		for i := 0; i < n; i++ {
 			tu.STUs = append(tu.STUs, GenSTU(t))
 		}
@@ -465,7 +487,7 @@ func GenMsg(t *rapid.T, o GenOpts) (*Msg, MsgInfo) {
 			identifying = append(identifying, trips[ti])
 		}
 	}
-	nA := rapid.IntRange(0, o.MaxAlerts).Draw(t, "nAlerts")
+	nA := rapid.IntRange(o.MinAlerts, o.MaxAlerts).Draw(t, "nAlerts")
 	for i := 0; i < nA; i++ {
 		ents = append(ents, Entity{AL: GenAlert(t, identifying, o)})
 	}
